@@ -29,7 +29,7 @@ var verbsVSP = []string{"%v", "%s", "%+v"}
 func H_C06_WellFormed(v *sym.V) {
 	g := newG(v, sym.Class(v.Param("cls", int(sym.HOST))))
 	g.Min = 0
-	b := g.BuildUpTo("e", v.Param("D", 2), gen.AllLeaves, gen.AllWrappers)
+	b := build(v, g, "e")
 	e, st := stageOf(v, b.Err)
 	verb := verbsVSP[v.Choice("verb", 3)]
 	r := string(redact.Sprintf(verb, e))
@@ -40,7 +40,7 @@ func H_C06_WellFormed(v *sym.V) {
 // the redactable rendering gives the plain rendering through Formattable.
 func H_C06_Congruent(v *sym.V) {
 	g := newG(v, sym.REG)
-	b := g.BuildUpTo("e", v.Param("D", 2), gen.AllLeaves, gen.AllWrappers)
+	b := build(v, g, "e")
 	e, st := stageOf(v, b.Err)
 	verb := verbsVSP[v.Choice("verb", 3)]
 	r := redact.Sprintf(verb, e).StripMarkers()
